@@ -93,6 +93,10 @@ def worker(payload):
         res["crop_rows_premises_checked"] = 1
         res["crop_rows_premises_all_hold"] = int(not hi and res["premises_all_hold"])
         res["premise_failures"] += sorted(set("ParHIOK." + f.split(".", 1)[1] for f in hi))
+        df = hyp_check.check_def_ok(m)
+        res["run_completes_premises_checked"] = 1
+        res["run_completes_premises_all_hold"] = int(not df and not hi and res["premises_all_hold"])
+        res["premise_failures"] += sorted(set("DefOK." + (f.split(".", 1)[1] if f.startswith("crop") else f) for f in df))
     except Exception:
         pass
     # every third simulation is run by the model as a SEQUENCE OF CALLS run_model(num_steps = k) (run_steps_c) with a random
